@@ -4,7 +4,7 @@ from __future__ import annotations
 import ast
 import itertools
 
-from .. import astu, evid, filteralg as fa, patterns
+from .. import astu, evid, filteralg as fa, flow, patterns
 from ..cfg import cfg_of
 from ..model import AnalysisError
 from ..report import key_of
@@ -338,11 +338,46 @@ def r6(R, repo):
   evid.judge_expr(R, f, e, 'self.key in %s' % astu.params(f.node)[1], key_of(f, 'key in path'), f, 'PathContains must test `self.key in path`', follow=False)
   f, e = _ret_expr(mod, 'PathIn.__call__')
   evid.judge_expr(R, f, e, '%s in self.paths' % astu.params(f.node)[1], key_of(f, 'path in paths'), f, 'PathIn must test `path in self.paths`', follow=False)
+  check_oftype(R, repo)
+
+
+def check_oftype(R, repo):
+  """OfType(T) matches instances of T and states whose recorded .type is a subclass of T (shared with C03)."""
+  mod = repo.mod(FL)
   f, e = _ret_expr(mod, 'OfType.__call__')
   x = astu.params(f.node)[2]
-  ok = isinstance(e, ast.BoolOp) and isinstance(e.op, ast.Or) and astu.src(e.values[0]) == 'isinstance(%s, self.type)' % x and \
-      'issubclass(%s.type, self.type)' % x in astu.src(e.values[1])
-  R.check(ok, key_of(f, 'isinstance or issubclass of .type'), f, 'OfType must test isinstance(x, T) or issubclass(x.type, T)')
+  evid.judge_expr(R, f, e, "isinstance(%s, self.type) or (hasattr(%s, 'type') and issubclass(%s.type, self.type))" % (x, x, x), key_of(f, 'isinstance or issubclass of .type'), f,
+                  'OfType must test isinstance(x, T) or issubclass(x.type, T): the recorded type of a state must be a *subclass of the filter\'s type*, not the other way round', follow=False)
+
+
+def _memoised_group(f):
+  """(node, table, key) when the index of the group a leaf is appended to comes from a local table looked up by a key that does
+  not contain the leaf's path."""
+  for lp in [n for n in astu.body_walk(f.node) if isinstance(n, ast.For) and isinstance(n.target, ast.Tuple) and len(n.target.elts) == 2 and all(isinstance(e, ast.Name) for e in n.target.elts)]:
+    path_v = lp.target.elts[0].id
+    for x in ast.walk(lp):
+      if isinstance(x, ast.Call) and isinstance(x.func, ast.Attribute) and x.func.attr == 'append' and isinstance(x.func.value, ast.Subscript) and isinstance(x.func.value.slice, ast.Name):
+        idx = x.func.value.slice.id
+        for d in flow.defs(f, idx):
+          for e in ([d[0]] if isinstance(d[0], ast.AST) else []):
+            for y in ast.walk(e):
+              tbl = key = None
+              if isinstance(y, ast.Call) and isinstance(y.func, ast.Attribute) and y.func.attr == 'get' and isinstance(y.func.value, ast.Name) and y.args:
+                tbl, key = y.func.value.id, y.args[0]
+              elif isinstance(y, ast.Subscript) and isinstance(y.value, ast.Name) and isinstance(y.ctx, ast.Load):
+                tbl, key = y.value.id, y.slice
+              if tbl is None:
+                continue
+              tdefs = [t[0] for t in flow.defs(f, tbl) if isinstance(t[0], ast.AST)]
+              if not tdefs or not all(isinstance(t, ast.Dict) or (isinstance(t, ast.Call) and astu.call_name(t) in ('dict', 'collections.defaultdict', 'defaultdict')) for t in tdefs):
+                continue
+              knames = set()
+              for k_ in evid.expand(f, key):
+                if isinstance(k_, ast.AST):
+                  knames |= astu.names_loaded(k_)
+              if path_v not in knames:
+                return y, tbl, astu.short(key)
+  return None
 
 
 @rule('C14.R7', 'K2+K5', 5, 'NNX splits are first-match partitions; `...` may only come last')
@@ -354,6 +389,11 @@ def r7(R, repo):
     loops = [n for n in astu.body_walk(f.node) if isinstance(n, ast.For) and
              any(isinstance(x, ast.If) and any(isinstance(y, ast.Call) and isinstance(y.func, ast.Name) and
                                                 y.func.id in astu.names_stored(n.target) for y in ast.walk(x.test)) for x in ast.walk(n))]
+    if len(loops) != 1:
+      memo = _memoised_group(f)
+      if memo is not None:
+        R.fail(key_of(f, 'first-match loop'), (f, memo[0]), '%s: the group of a leaf is looked up in `%s`, a table keyed by `%s`, instead of being decided by the predicates for this very (path, value): filters that depend on the path or on anything but that key (PathContains, WithTag, Not/All, lambdas) no longer give a first-match partition' % (qual, memo[1], memo[2]))
+        continue
     R.require(len(loops) == 1, '%s: predicate loop not found' % qual)
     ok, msg, info = patterns.first_match_loop(f, loops[0])
     R.judge(ok is not None, ok, key_of(f, 'first-match loop'), (f, loops[0]), '%s: %s' % (qual, msg))
